@@ -1103,9 +1103,38 @@ fn compare_values(a: &Value, b: &Value) -> Option<Ordering> {
         (Value::Float64(a), Value::Float64(b)) => a.partial_cmp(b),
         (Value::String(a), Value::String(b)) => Some(a.cmp(b)),
         (Value::Bool(a), Value::Bool(b)) => Some(a.cmp(b)),
-        (Value::Int64(a), Value::Float64(b)) => (*a as f64).partial_cmp(b),
-        (Value::Float64(a), Value::Int64(b)) => a.partial_cmp(&(*b as f64)),
+        (Value::Int64(a), Value::Float64(b)) => compare_i64_f64(*a, *b),
+        (Value::Float64(a), Value::Int64(b)) => compare_i64_f64(*b, *a).map(Ordering::reverse),
         _ => None,
+    }
+}
+
+/// Compares an `i64` with an `f64` exactly (no rounding of the integer to 53 bits).
+fn compare_i64_f64(a: i64, b: f64) -> Option<Ordering> {
+    if b.is_nan() {
+        return None;
+    }
+    // 2^63 is exactly representable; everything at or above it exceeds every i64
+    if b >= 9_223_372_036_854_775_808.0 {
+        return Some(Ordering::Less);
+    }
+    if b < -9_223_372_036_854_775_808.0 {
+        return Some(Ordering::Greater);
+    }
+    // b is in [-2^63, 2^63): its integral part converts to i64 without loss
+    let whole = b.trunc();
+    match a.cmp(&(whole as i64)) {
+        Ordering::Equal => {
+            let frac = b - whole;
+            if frac > 0.0 {
+                Some(Ordering::Less)
+            } else if frac < 0.0 {
+                Some(Ordering::Greater)
+            } else {
+                Some(Ordering::Equal)
+            }
+        }
+        other => Some(other),
     }
 }
 
